@@ -41,6 +41,11 @@ def run(ctx):
     r6_wiring(ctx)
     from . import c15
     c15.r6_safe_actions_cache(ctx, rule="C06.R7")
+    # "the action the learner chose": an un-hinted answer that is one of the offered objects is read as that action
+    c15.r8_recognition_order(ctx, ctx.fn(c15.SAF, "SafeLearner.pred_format"), rule="C06.R8")
+    # "exactly what the environment provides": Finalize (appended to every experiment pipeline) re-encodes actions through Repr's row memo
+    from . import c10
+    c10.r7_row_memo(ctx, rule="C06.R9")
 
 
 # ================================================================================================
@@ -604,6 +609,8 @@ def r6_wiring(ctx):
 
 
 CONTROLS = [
+    ("identity test dropped before the PMF look-alike", "coba/safety.py", M.delete_stmt("SafeLearner.pred_format", M.text_has("if any((std_pred[0] is action for action in actions)): return 'AX'")), "C06.R8"),
+    ("Repr memo keyed by the first action only", "coba/environments/filters.py", M.replace_expr("Repr.filter", "row != prev_row", "prev_row is None or row[0] != prev_row[0]"), "C06.R9"),
     ("learn with logged prob", SEQ, M.replace_expr("SequentialCB._results", "learner.learn(context, on_act, learn_reward, on_pr, **on_kw)",
                                                     "learner.learn(context, on_act, learn_reward, off_pr, **on_kw)"), "C06.R3"),
     ("drop kwargs", SEQ, M.replace_expr("SequentialCB._results", "learner.learn(context, on_act, learn_reward, on_pr, **on_kw)",
